@@ -76,3 +76,13 @@ Definition c10_case_geo (geo : option geo_args) (epsd epsc : Q) (ddof : nat) (to
   | Some _ => and_holds (geometry_holds geo coords centres labels) v
   | None => v
   end.
+
+(** a call with very many points (more than one k-d tree query batch): the
+    model sees a fixed subsample of the positions (first, last, every 997th,
+    a run around every multiple of 100000) with the labels observed there and
+    checks them against the documented grid (the region is given explicitly);
+    [oracle_ok] is the harness' floating-point oracle over ALL points (block
+    populations, number of returned entries, reduced values) - numpy, not Coq *)
+Definition c09_large_case (geo : option geo_args) (coords_sub : list (list D)) (centres : list D * list D)
+    (labels_sub : list Z) (oracle_ok : bool) : verdict :=
+  mk_verdict true (oracle_ok && geometry_holds geo coords_sub centres labels_sub).
